@@ -105,6 +105,7 @@ IN_CHILD = os.environ.get('C15_CHILD') == '1'
 KNOWN_SKIP = 'not_explored_because_known'
 INT_FOLD_VALUES = [7, 3, 5, 1, 9, 4, 8, 2, 6, 0]      # value order != code order
 STR_FOLD_VALUES = ['fq', 'fb', 'fz', 'fa', 'fm', 'fc']
+FLT_FOLD_VALUES = [1.2, 1.1, 2.1, 1.3, 2.2, 0.5]      # distinct floats sharing an integer part (session.run codes)
 
 
 # ----------------------------------------------------------------------------- generators
@@ -162,7 +163,7 @@ def _structure(case):
     if d['type'] == 'bal':
         K, M, R = d['K'], d['M'], d['R']
         names = _naming(K, d['naming'])
-        fvals = INT_FOLD_VALUES if d['foldnames'] == 'int' else STR_FOLD_VALUES
+        fvals = {'int': INT_FOLD_VALUES, 'str': STR_FOLD_VALUES, 'flt': FLT_FOLD_VALUES}[d['foldnames']]
         cells = [(c, f) for f in range(M) for c in range(K) for _ in range(R)]
         n = len(cells)
         order = d['order']
@@ -853,7 +854,7 @@ def run_shard(shard, ctx):
         maxw = 2 if n <= (9 if th else 6) else 1
         masks = _masks(n, n_ch, maxw)
         idx = 0
-        for naming, foldnames in (('desc', 'int'), ('str', 'str')):
+        for naming, foldnames in (('desc', 'int'), ('str', 'str'), ('asc', 'flt')):
             for mi, mask in enumerate(masks):
                 has_nan = bool(mask)
                 fills = [0] if has_nan else ([0, 'int'] + ([1] if th else []))
